@@ -77,7 +77,9 @@ def run(ctx):
     #    the HMAC / PBKDF2 cases
     top = max(maxlen, 2048 if thorough else 300)
     with open(os.path.join(d, "tab.cfg"), "w") as f:
-        f.write("SPECIFICATION Spec\nCONSTANTS\n Lens = {%s}\n EdgeLens = {0,1,55,56,57,63,64,65,119,120,121,127,128,129,500}\n" % ",".join(str(i) for i in range(top + 1)))
+        f.write("SPECIFICATION Spec\nCONSTANTS\n Lens = {%s}\n EdgeLens = {0,1,55,56,57,63,64,65,119,120,121,127,128,129,500,%s}\n" % (",".join(str(i) for i in range(top + 1)),
+                # long messages in ONE Write / one-shot call (and in three pieces): past 64 KiB, and in the thorough tier past 1 MiB
+                "65537,200000,1048577" if thorough else "65537"))
     r = ctx.tlc("SM3Table", "tab.cfg", workers=ncpu, timeout=3000)
     cases = markers(r["out"], "CASE")
     dig = {c["case"]["len"]: c["expect"] for c in cases if c["case"]["kind"] == "digest" and c["case"]["fam"] == 0}
